@@ -75,7 +75,69 @@ def _tg_double_optimize():
     return (y - d[["a", "b"]]).assign(k=d.c)
 
 
-TARGETED = [_tg_nested_diff_positions, _tg_nested_two_inner, _tg_nested_frame, _tg_nested_bcast, _tg_double_optimize]
+def _tg_nested_one_partition_bcast():
+    # a single-partition fused group used as a broadcast operand of a multi-partition group
+    import dask_expr as dx
+
+    pdf, d = _tg_base()
+    s = dx.from_pandas(pd.Series([2.0], name="b"), npartitions=1)
+    s1 = ((s + 1) * 2).optimize()
+    return d[["b", "c"]] + s1.sum()
+
+
+def _tg_nested_one_partition_series():
+    # frame (3 partitions) + already optimized single-partition Series (aligned on the columns, broadcast to every partition)
+    import dask_expr as dx
+
+    pdf, d = _tg_base()
+    s = dx.from_pandas(pd.Series([10.0, 20.0, 30.0], index=["a", "b", "c"]), npartitions=1)
+    s1 = ((s + 1) * 2).optimize()
+    return d[["a", "b", "c"]] + s1
+
+
+def _reopt_family():
+    """An already optimized (fused) chain x0 -> x1 -> ... -> xk used together with a second consumer of one of its INNER members
+    x_j (taken from the unoptimized chain), for every j, several kinds of second consumer and several ways of combining."""
+    import dask_expr as dx
+
+    def chain(d, k):
+        xs = [d[["a", "b", "c"]]]
+        fns = [lambda v: v * 3, lambda v: v + 1, lambda v: v * 2, lambda v: v - 0.5]
+        for i in range(k):
+            xs.append(fns[i](xs[-1]))
+        return xs
+
+    consumers = {
+        "repartition": lambda v: v.repartition(npartitions=2),
+        "shuffle": lambda v: v.shuffle("a", npartitions=3),
+        "cumsum": lambda v: v.cumsum(),
+        "elemwise": lambda v: v + 100,
+        "bcast_sum": lambda v: v - v.b.sum(),
+        "partitions": lambda v: v.partitions[[1, 2]],
+    }
+    combiners = {
+        "concat0": lambda top, other: dx.concat([top, other]),
+        "concat0_rev": lambda top, other: dx.concat([other, top]),
+        "add": lambda top, other: top + other,
+    }
+    out = []
+    for k in (3, 4):
+        for j in range(k):
+            for cname, cons in consumers.items():
+                for bname, comb in combiners.items():
+                    if bname == "add" and cname in ("repartition", "shuffle", "partitions"):
+                        continue  # alignment of differently partitioned frames is C02's matter
+
+                    def build(k=k, j=j, cons=cons, comb=comb):
+                        pdf, d = _tg_base()
+                        xs = chain(d, k)
+                        return comb(xs[-1].optimize(), cons(xs[j]))
+                    build.__name__ = f"_tg_reopt_k{k}_j{j}_{cname}_{bname}"
+                    out.append(build)
+    return out
+
+
+TARGETED = [_tg_nested_diff_positions, _tg_nested_two_inner, _tg_nested_frame, _tg_nested_bcast, _tg_double_optimize, _tg_nested_one_partition_bcast, _tg_nested_one_partition_series] + _reopt_family()
 
 
 def cases(tier, seed):
